@@ -375,12 +375,22 @@ def nary_fold(t):
     return (t[0],) + tuple(args)
 
 
+def name_variant(n, v):
+    """feature names of a document: consecutive documents of one process carry different names at the same positions
+    (and the same names at other positions), so that nothing remembered from an earlier document fits a later one."""
+    if v == 1:
+        return ['F%d' % (n - 1 - i) for i in range(n)]
+    if v == 2:
+        return ['K%d' % i for i in range(n)]
+    return ['F%d' % i for i in range(n)]
+
+
 def glencoe_file(shape, cards, opts, ctc_code) -> list:
     shape = totuple(shape)
     cards = [tuple(c) for c in cards]
     n = R.n_features(shape)
-    names = ['F%d' % i for i in range(n)]
-    trees = gl_ctcs(n, ctc_code)
+    names = name_variant(n, opts.get('names', 0))
+    trees = [c05_rename(t, names) for t in gl_ctcs(n, ctc_code)]
     want = R.build(shape, cards, names=names, ctcs=[R.ctc('c%d' % i, nary_fold(t)) for i, t in enumerate(trees)])
     try:
         with rt.TempDir() as d:
@@ -516,7 +526,7 @@ def batch_fama(max_n, lo, hi, seed):
                 ctcs = [['requires', n - 1, 0], ['excludes', 0, n - 1]] if n >= 2 else []
                 if n >= 2 and rnd.random() < 0.5:
                     ctcs = ctcs + [['requires', n - 1, 0], ['excludes', n - 1, 0], ['excludes', 0, n - 1]]
-                args = [shape, cards, None, opts, ctcs]
+                args = [shape, cards, name_variant(n, res['instances'] % 3), opts, ctcs]
                 res['instances'] += 1
                 res['native_runs'] += 1
                 res['nontrivial'] += 1
@@ -592,6 +602,7 @@ def batch_glencoe(max_n, lo, hi, seed):
     for shape in shapes[lo:hi]:
         for cards in glencoe_fragment_cards(shape):
             for opts in [dict(), {'reverse_keys': 1}, {'reverse_children': 1}, {'or_as_genor': 1}, {'ids_differ': 1}, {'ids_differ': 1, 'reverse_keys': 1}]:
+                opts = dict(opts, names=res['instances'] % 3)
                 args = [shape, cards, opts, rnd.randrange(len(GL_CTCS))]
                 res['instances'] += 1
                 res['native_runs'] += 1
